@@ -84,7 +84,7 @@ func H_C04_raw(v *V) {
 		return
 	}
 	v.Reach("error")
-	v.ObserveStr("err", err.Error())
+	vObsErr(v, err)
 	fe, typed := err.(*Error)
 	if err != c04CbErr {
 		v.Assert(typed, "every rejection by the parser is a *flags.Error")
@@ -175,7 +175,7 @@ func H_C04_typed(v *V) {
 	p := c04Parser(v, variant, opts, &cb)
 	p.SubcommandsOptional = subOptional
 	_, err := p.ParseArgs(argv)
-	v.ObserveStr("err", vErrString(err))
+	vObsErr(v, err)
 	v.Assert(err != nil, "the faulty vector is rejected")
 	if err == nil {
 		return
